@@ -88,6 +88,8 @@ package json
 //@   requires jt != nil && tbl(jt.Table) && jtab(jt).nColumns <= 1099511627774
 //@   ensures [error-means-no-text] result1 != nil ==> result0 == "" @C09,C07
 //@   ensures [table-still-wellformed] tbl(jt.Table)
+//@   ensures [returns-exactly-what-RenderTo-wrote] result1 == nil ==> result0 == wcat(Wchunk, old(Wn), Wn) @C10
+//@   call RenderTo before ghost renderStart = Wn
 //@   call RenderTo before ghost Wfailed = false
 //@   call RenderTo before ghost jstate = 0
 
